@@ -846,7 +846,8 @@ class ThreadedServerWorld(ServerWorld):
             rec['seq_start'] = self.k.ev('api.start', id=rec['id'], name=name)
             rec['t_start'] = self.k.now
             try:
-                rec['ret'] = getattr(self.server, name)(*args)
+                r = getattr(self.server, name)(*args)
+                rec['ret'] = dict(r) if isinstance(r, dict) else r
             except K.SimKilled:
                 raise
             except BaseException as e:  # noqa
@@ -1207,7 +1208,7 @@ class AsyncServerWorld(ServerWorld):
                 r = getattr(self.server, name)(*args)
                 if asyncio.iscoroutine(r):
                     r = await r
-                rec['ret'] = r
+                rec['ret'] = dict(r) if isinstance(r, dict) else r
             except asyncio.CancelledError:
                 raise
             except BaseException as e:  # noqa
